@@ -910,7 +910,7 @@ class CheckC11(Check):
     oracles = (Ledger, C11)
     judged = {"C11"}
     adopt = {("C04", None, "Zooming"): "arm-stats"}
-    sizes = {"quick": 12000, "thorough": 400000}
+    sizes = {"quick": 9000, "thorough": 400000}
     chunk = 40
     technique = ("deterministic simulation: coverage invariant over the leaves, index maximality and refinement rule checked after every "
                  "round; midpoint partitions (arm on the shared face) generated on purpose")
@@ -1091,12 +1091,17 @@ class CheckC14(TwinCheck):
     chunk = 20
     technique = ("deterministic simulation: the same scenario replayed in-process, under allocation noise and a jumping clock with "
                  "tripwires on foreign randomness, in fresh interpreters under other PYTHONHASHSEED values, and two instances interleaved "
-                 "call by call by a seeded scheduler (optionally sharing the domain object); event-log equality")
+                 "call by call by a seeded scheduler (optionally sharing the domain object; on random partitions with the global generator "
+                 "context-switched per instance); event-log equality against solo runs taken in pristine processes")
     level_text = ("log equality between repeated, perturbed and interleaved executions of seeded scenarios; the interleaving of two "
                   "instances is decided by the simulator's scheduler, hash seed / allocation / clock are varied deliberately")
-    rule = ("A = any algorithm (real NumPy seed in 70% of runs) x partition x box x rewards; B = second instance on an RNG-free partition "
-            "when A is RNG-free too; non-trivial = >= 10 rounds; distinct = (algorithm, partition, K, d, reward kind, RNG mode, log digest)")
-    assumptions = ["interleaving part only on RNG-outcome-free partitions (DimensionBinary; Binary/K-ary in 1-D) and not VROOM, as the statement says",
+    rule = ("A = any algorithm (real NumPy seed in 70% of runs) x partition x box x rewards; B = second instance: on an RNG-free partition "
+            "when A is RNG-free too (shared generator, both compared), or a consuming one next to an RNG-free A (shared generator, A "
+            "compared), or any instance at all with one virtual generator per instance (random partitions, VROOM); non-trivial = >= 10 "
+            "rounds; distinct = (algorithm, partition, K, d, reward kind, RNG mode, log digest)")
+    assumptions = ["over one shared generator the interleaving part runs on RNG-outcome-free configurations (DimensionBinary; Binary/K-ary in 1-D; "
+                   "not VROOM); elsewhere each instance gets its own generator (context switch at every scheduler step), because two instances "
+                   "that both draw from NumPy's global generator necessarily see each other's consumption",
                    "tripwires cover random.*, time.*, os.urandom, uuid, numpy.random.{default_rng,RandomState,rand,randn,random,normal,...}"]
     fault_kinds = ["alloc-noise", "clock-jump", "hashseed", "interleaving", "shared-domain-object", "third-party-instance",
                    "generator-context-switch"]
@@ -1157,6 +1162,22 @@ class CheckC14(TwinCheck):
             sc["share_domain"] = B["domain"] == A["domain"] and r.random() < 0.5
             sc["third_party"] = r.choice([0, 0, 1])
         return sc
+
+    @staticmethod
+    def _rng_free(S):
+        d = len(S["domain"])
+        return S["algo"] != "VROOM" and (S["partition"]["cls"] == "DimensionBinaryPartition" or (
+            d == 1 and S["partition"]["cls"] in ("BinaryPartition", "KaryPartition")))
+
+    def legal(self, sc):
+        """The interleaving part over one shared generator is only defined for RNG-free instances (a shrinker may have changed
+        a partition or a dimension): both of them, or - next to a consuming neighbour - the one that is compared."""
+        B = sc.get("B")
+        if B is None or sc.get("virtual_rng"):
+            return True
+        if not self._rng_free(sc["A"]):
+            return False
+        return sc.get("compare_B", True) is False or self._rng_free(B)
 
     record_all_digests = 3000
     # the generic digest self-test is this property itself here: repeats happen inside every run and the
